@@ -3,7 +3,8 @@
 package main
 
 // C01: composed resources are never leaked or duplicated, whatever fails
-// mid-reconcile; names are stable; a steady state is quiescent.
+// mid-reconcile and whatever is missing from the informer cache; names are stable; a steady
+// state is quiescent.
 
 import (
 	"encoding/json"
@@ -91,12 +92,30 @@ func c01Gen(r *Rng) xwScn {
 		if s.Mode == "fn" && r.Chance(1, 8) {
 			rd.FnErr = Pick(r, []string{"error", "fatal"})
 		}
+		// informer-cache misses: some referenced resources that exist when the round starts (odd
+		// selectors: preferably ones created in the previous round) are missing from the cache
+		if r.Chance(1, 3) {
+			rd.MissSel = []int{r.Intn(1000)}
+			if r.Chance(1, 3) {
+				rd.MissSel = append(rd.MissSel, r.Intn(1000))
+			}
+			if r.Chance(1, 2) {
+				// aim the fault at the reads in front of the first write (the cached read, the live
+				// fallback read, the name probes)
+				rd.Fault = &xwFault{K: r.Intn(7), O: Pick(r, []string{"fail", "fail", "conflict", "crashBefore", "crashAfter"})}
+			}
+		}
 		s.Rounds = append(s.Rounds, rd)
 	}
 	// fault-free rounds to quiescence with the last desired state
 	last := s.Rounds[len(s.Rounds)-1]
 	for i := 0; i < 3; i++ {
-		s.Rounds = append(s.Rounds, xwRound{Desired: last.Desired, Ver: last.Ver})
+		rd := xwRound{Desired: last.Desired, Ver: last.Ver}
+		if r.Chance(1, 6) {
+			// a steady state stays quiescent (function composer) when resources are missing from the cache
+			rd.MissSel = []int{r.Intn(1000)}
+		}
+		s.Rounds = append(s.Rounds, rd)
 	}
 	return s
 }
@@ -105,11 +124,29 @@ func c01Run(s *xwScn) (c01Obs, []Mon) {
 	w := xwNewWorld(*s)
 	obs := c01Obs{}
 	var before map[string]string
+	created := []xwRef{} // composed resources created in the previous round
 	for i := range s.Rounds {
 		if i == len(s.Rounds)-1 {
 			before = w.St.Snapshot()
 		}
-		obs.Rounds = append(obs.Rounds, w.xwRunRound(s.Mode, &s.Rounds[i], nil))
+		rd := &s.Rounds[i]
+		if rd.Miss == nil && len(rd.MissSel) > 0 {
+			rd.Miss = w.pickMiss(rd.MissSel, created)
+		}
+		rd.MissSel = nil
+		_, objs0, _ := w.view()
+		had := map[string]bool{}
+		for _, o := range objs0 {
+			had[o.Kind+"/"+o.Name] = true
+		}
+		obs.Rounds = append(obs.Rounds, w.xwRunRound(s.Mode, rd, nil))
+		created = created[:0]
+		_, objs1, _ := w.view()
+		for _, o := range objs1 {
+			if !had[o.Kind+"/"+o.Name] {
+				created = append(created, xwRef{Kind: o.Kind, Name: o.Name})
+			}
+		}
 	}
 	after := w.St.Snapshot()
 	obs.Quiescent = len(before) == len(after)
@@ -136,10 +173,13 @@ func c01Run(s *xwScn) (c01Obs, []Mon) {
 }
 
 func c01Cls(s *xwScn, o c01Obs) string {
-	faults, crashed, errs := 0, 0, 0
+	faults, crashed, errs, missed := 0, 0, 0, 0
 	for i, r := range s.Rounds {
 		if r.Fault != nil {
 			faults++
+		}
+		if len(r.Miss) > 0 {
+			missed++
 		}
 		switch o.Rounds[i].Result {
 		case "crashed":
@@ -148,7 +188,7 @@ func c01Cls(s *xwScn, o c01Obs) string {
 			errs++
 		}
 	}
-	return fmt.Sprintf("%s/pre=%d/rounds=%d/faults=%d/crashed=%d/err=%d", s.Mode, len(s.Objs), len(s.Rounds), faults, crashed, errs)
+	return fmt.Sprintf("%s/pre=%d/rounds=%d/faults=%d/crashed=%d/err=%d/miss=%d", s.Mode, len(s.Objs), len(s.Rounds), faults, crashed, errs, missed)
 }
 
 func init() {
@@ -170,6 +210,9 @@ func init() {
 				probe := base
 				probe.Rounds = append([]xwRound{}, base.Rounds...)
 				o, _ := c01Run(&probe)
+				// the swept (first) reconcile keeps the cache misses picked in the fault-free probe run;
+				// later reconciles pick theirs in every run (their objects carry fresh random names)
+				base.Rounds[0].Miss, base.Rounds[0].MissSel = probe.Rounds[0].Miss, nil
 				calls := len(o.Rounds[0].Calls)
 				for k := 0; k < calls; k++ {
 					for _, oc := range []string{"fail", "conflict", "crashBefore", "crashAfter"} {
